@@ -142,7 +142,10 @@ func (r *Run) execFrame(fr *Frame, st0 *State, reach0 Term) {
 		has     bool
 	}
 	loopVar := map[*ssa.BasicBlock]*loopCtx{}
+	savedTag := r.ctx.curTag
+	defer func() { r.ctx.curTag = savedTag }()
 	for _, b := range cfg.rpo {
+		r.ctx.curTag = savedTag
 		var conds []Term
 		var sts []*State
 		var predOf []*ssa.BasicBlock
@@ -177,6 +180,7 @@ func (r *Run) execFrame(fr *Frame, st0 *State, reach0 Term) {
 			conds[i] = r.ctx.Define(fmt.Sprintf("E%d.%d", fr.id, b.Index), conds[i])
 		}
 		reach := r.ctx.Define(fmt.Sprintf("R%d.%d", fr.id, b.Index), Or(conds...))
+		r.ctx.curTag = reach.S
 		st := r.mergeStates(conds, sts)
 		if li := cfg.loops[b]; li != nil {
 			lc := &loopCtx{}
@@ -444,7 +448,7 @@ func (r *Run) havocLoop(fr *Frame, li *loopInfo, st *State) {
 		r.scanWrites(fr, b, ws, 0)
 	}
 	// ghost code attached to this function (and to literals expanded inside the loop) writes ghost state too
-	r.scanGhostWrites(fr.fn, ws, map[*ssa.Function]bool{})
+	r.scanGhostWritesIn(fr.fn, li.body, ws, map[*ssa.Function]bool{})
 	for _, b := range blocks {
 		for _, ins := range b.Instrs {
 			if mc, ok := ins.(*ssa.MakeClosure); ok {
@@ -1578,6 +1582,80 @@ func (c *callCtx) paramField(r *Run, param, field string) (string, ssa.Value) {
 }
 
 // scanGhostWrites adds the targets of every ghost assignment in fn's contract (any anchor) to the write set.
+// scanGhostWritesIn: like scanGhostWrites, but of fn's own ghost blocks only those anchored at a program point inside the
+// given blocks count (an anchor that cannot be located counts everywhere).
+func (r *Run) scanGhostWritesIn(fn *ssa.Function, body map[*ssa.BasicBlock]bool, ws *writeSet, seen map[*ssa.Function]bool) {
+	if seen[fn] {
+		return
+	}
+	seen[fn] = true
+	if sp := r.specFor(fn); sp != nil {
+		for _, gb := range sp.Ghost {
+			if !r.anchorMayBeIn(fn, gb.Anchor, body) {
+				continue
+			}
+			for _, ga := range gb.Assign {
+				r.ghostTargetComps(ga.LHS, ws, sp.Pkg)
+			}
+		}
+	}
+	for _, a := range fn.AnonFuncs {
+		r.scanGhostWrites(a, ws, seen)
+	}
+}
+
+// anchorMayBeIn: can the program point named by the anchor lie in one of the blocks?
+func (r *Run) anchorMayBeIn(fn *ssa.Function, anchor string, body map[*ssa.BasicBlock]bool) bool {
+	switch {
+	case anchor == "entry":
+		return len(fn.Blocks) > 0 && body[fn.Blocks[0]]
+	case anchor == "return":
+		for b := range body {
+			if len(b.Instrs) > 0 {
+				if _, ok := b.Instrs[len(b.Instrs)-1].(*ssa.Return); ok {
+					return true
+				}
+			}
+		}
+		return false
+	case strings.HasPrefix(anchor, "call:") || strings.HasPrefix(anchor, "before:"):
+		name := anchor[strings.Index(anchor, ":")+1:]
+		k := strings.LastIndex(name, "#")
+		if k < 0 {
+			return true
+		}
+		short := name[:k]
+		var ord int
+		fmt.Sscanf(name[k+1:], "%d", &ord)
+		for b := range body {
+			for _, ins := range b.Instrs {
+				var cc *ssa.CallCommon
+				switch x := ins.(type) {
+				case *ssa.Call:
+					cc = &x.Call
+				case *ssa.Defer:
+					cc = &x.Call
+				case *ssa.Go:
+					cc = &x.Call
+				}
+				if cc == nil {
+					continue
+				}
+				if n := r.calleeShortName(nil, cc); n == "dyn" {
+					return true // a callee only the symbolic execution can name: it may be the anchor's
+				} else if n != short {
+					continue
+				}
+				if callOrdinal(fn, ins, short, func(c *ssa.CallCommon) string { return r.calleeShortName(nil, c) }) == ord {
+					return true
+				}
+			}
+		}
+		return false
+	}
+	return true
+}
+
 func (r *Run) scanGhostWrites(fn *ssa.Function, ws *writeSet, seen map[*ssa.Function]bool) {
 	if seen[fn] {
 		return
